@@ -1,9 +1,386 @@
+// rewdrv — C13: mining rewards and lockups on the real in-process prime/region/zone network.
+//
+//   rewdrv random -seed N -steps K -out trace.ndjson [-bonus] [-shapes file]
+//   rewdrv probe <pattern>
 package main
 
 import (
+	"bufio"
+	"encoding/json"
+	"flag"
 	"fmt"
+	"math/big"
+	"math/rand"
 	"os"
+	"time"
+
+	"github.com/dominant-strategies/go-quai/common"
+	"github.com/dominant-strategies/go-quai/core/vm"
+	"github.com/dominant-strategies/go-quai/params"
+	"verifharness/chain"
+	"verifharness/conv"
+	"verifharness/mininet"
+	"verifharness/wallet"
 )
+
+type ShapeStep struct {
+	Op       string          `json:"op"` // mine | sethead
+	P        int             `json:"p"`
+	B        int             `json:"b"`
+	Miner    int             `json:"miner"`
+	Byte     int             `json:"byte"`
+	Layout   string          `json:"layout"`
+	Contract int             `json:"contract"`
+	Uncles   []int           `json:"uncles"`
+	Claims   json.RawMessage `json:"claims"`
+}
+
+func ether(n int64) *big.Int { return new(big.Int).Mul(big.NewInt(n), big.NewInt(params.Ether)) }
+
+func setParams(bonus bool) {
+	chain.FastParams()
+	if bonus {
+		// lockup bonus from block 8 on, "years" of 12 blocks (first-year rate, linear decline, terminal rate)
+		params.BlocksPerMonth = 4
+		params.BlocksPerYear = 12
+	}
+}
+
+var orders = []int{mininet.Zone, mininet.Region, mininet.Prime, mininet.Zone, -1}
+
+func (g *Engine) randomProfile() Profile {
+	p := Profile{Miner: []int{1, 1, 1, 3, 3, 2, 6}[g.R.Intn(7)], Byte: uint8(g.R.Intn(4)), Layout: "plain"}
+	switch x := g.R.Intn(100); {
+	case x < 45:
+	case x < 75:
+		p.Layout, p.Contract = "contract", "A"
+	case x < 84:
+		p.Layout, p.Contract = "delegate", "A"
+	case x < 90:
+		p.Layout, p.Contract = "contract", "nocode"
+	case x < 94:
+		p.Layout, p.Contract = "contract", "B"
+	default:
+		p.Layout = "malformed"
+	}
+	return p
+}
+
+// claims: attempts on every live tranche of the current head (owner and non-owner, whatever the timing:
+// the rule decides), and repeated attempts on tranches that were already paid.
+func (g *Engine) submitClaims(force bool) {
+	hb := g.Blocks[g.Head]
+	if hb == nil {
+		return
+	}
+	for _, l := range hb.Snap.Locks {
+		to := g.RecvQuai
+		if l.Miner.IsInQiLedgerScope() {
+			to = g.RecvQi
+		}
+		if force || g.R.Intn(3) == 0 {
+			g.submitClaim(l.Owner, l.Miner, l.Byte, l.Epoch, to, "owner")
+			if g.R.Intn(4) == 0 {
+				g.submitClaim(l.Owner, l.Miner, l.Byte, l.Epoch, to, "owner-twice-in-one-block")
+			}
+		}
+		if g.R.Intn(5) == 0 {
+			other := g.OwnerB
+			if l.Owner.Equal(g.OwnerB) {
+				other = g.OwnerA
+			}
+			g.submitClaim(other, l.Miner, l.Byte, l.Epoch, to, "non-owner")
+		}
+	}
+	// again, after payment (walk a few ancestors for claims that were paid)
+	n := 0
+	for x := g.Head; x > 0 && n < 6; x = g.Blocks[x].Parent {
+		n++
+		for _, c := range g.Blocks[x].Claims {
+			if c.Paid && g.R.Intn(3) == 0 {
+				g.submitClaim(c.CallerA, c.MinerA, c.Byte, c.Epoch, c.To, "again-after-payment")
+			}
+		}
+	}
+}
+
+func (g *Engine) maybeShares() {
+	if g.R.Intn(5) < 2 {
+		n := 1 + g.R.Intn(2)
+		for i := 0; i < n; i++ {
+			m := g.wsMiners[g.R.Intn(len(g.wsMiners))]
+			w := g.injectShare(m, []byte{uint8(g.R.Intn(2))})
+			if w != nil {
+				g.Events = append(g.Events, map[string]interface{}{"op": "share", "id": w.ID, "miner": w.Miner, "number": int(w.Number), "byte": int(w.Hdr.Data()[0])})
+			}
+		}
+	}
+	// now and then offer a share that is already on the chain once more
+	if g.R.Intn(6) == 0 {
+		for _, w := range g.shares {
+			if w.Number+uint64(params.WorkSharesInclusionDepth)+2 >= g.E.Height() {
+				g.E.Net.ZoneCore().SendWorkShare(w.Hdr)
+				g.Stats["shares_reoffered"]++
+				break
+			}
+		}
+	}
+}
+
+func runScenario(seed int64, scen int, bonus bool, steps int, shape []ShapeStep, verbose bool) (g *Engine, derr string) {
+	setParams(bonus)
+	e, err := chain.Boot(chain.EnvOptions{Net: mininet.Options{Quiet: !verbose, MinerPreference: 0, GasCeil: params.StateCeil}, Seed: uint64(seed), NQuai: 12, NQi: 6, QuaiFunding: ether(100000)})
+	if err != nil {
+		return nil, "boot: " + err.Error()
+	}
+	defer e.Net.Close()
+	g = &Engine{S: conv.NewSim(e), E: e, R: rand.New(rand.NewSource(seed)), Blocks: map[int]*BlockRec{}, Stats: map[string]int{},
+		minerIDs: map[AB]int{}, minerAddr: map[int]common.Address{}, newAcct: map[int]bool{}, contractID: map[AB]int{}, hasCode: map[int]bool{},
+		trackedQ: map[AB]string{}, trackedQi: map[string]string{}, shares: map[common.Hash]*WorkShare{}, pendingTx: map[common.Hash]*Claim{}, nextWS: scen * 1000}
+	defer func() {
+		if r := recover(); r != nil {
+			if de, ok := r.(driverError); ok {
+				derr = string(de)
+				return
+			}
+			panic(r)
+		}
+	}()
+	for dl := time.Now().Add(5 * time.Second); time.Now().Before(dl); time.Sleep(2 * time.Millisecond) {
+		if e.Net.PrimeCore().Slice().ReadBestPh() != nil && e.Net.RegionCore().Slice().ReadBestPh() != nil && e.Net.ZoneCore().Slice().ReadBestPh() != nil {
+			break
+		}
+	}
+	g.Lockup = vm.LockupContractAddresses[[2]byte{0, 0}]
+	// fixed miner identities: 1 Quai coinbase, 2 new-account share miner, 3 Qi coinbase, 4 share miner (Quai), 5 share miner (Qi), 6 another new account
+	fresh1 := wallet.Grind(uint64(seed)*7919+11, false, mininet.ZoneLoc).Addr
+	fresh2 := wallet.Grind(uint64(seed)*7919+12, false, mininet.ZoneLoc).Addr
+	for _, a := range []common.Address{e.Quai[0].Addr, fresh1, e.Qi[0].Addr, e.Quai[2].Addr, e.Qi[2].Addr, fresh2} {
+		g.minerID(a)
+	}
+	g.wsMiners = []common.Address{fresh1, e.Quai[2].Addr, e.Qi[2].Addr, fresh2, e.Quai[2].Addr}
+	g.RecvQuai, g.RecvQi = e.Quai[3].Addr, e.Qi[3].Addr
+	g.claimKeys = e.Quai[4:10]
+	for _, a := range []common.Address{e.Quai[0].Addr, fresh1, fresh2, e.Quai[2].Addr, g.RecvQuai} {
+		g.trackedQ[ab(a)] = "account"
+	}
+	for _, k := range g.claimKeys {
+		g.trackedQ[ab(k.Addr)] = "claim-sender"
+	}
+	for _, a := range []common.Address{e.Qi[0].Addr, e.Qi[2].Addr, g.RecvQi} {
+		g.trackedQi[string(a.Bytes())] = "qi"
+	}
+	g.NoCodeC = wallet.Grind(uint64(seed)*7919+13, false, mininet.ZoneLoc).Addr
+	s0 := g.snapshot()
+	g.Blocks[0] = &BlockRec{ID: 0, Parent: -1, Snap: s0, Exp: copySnap(s0), ArriveHash: map[int]common.Hash{}}
+	g.Events = append(g.Events, map[string]interface{}{"op": "tracereset"})
+	plain := Profile{Layout: "plain"}
+	g.mineWith(0, plain, mininet.Zone)
+	g.mineWith(g.Head, plain, mininet.Prime)
+	g.OwnerA = g.deployOwner(e.Quai[10], 0xA1)
+	g.OwnerB = g.deployOwner(e.Quai[11], 0xB2)
+	g.contractID[ab(g.OwnerA)], g.contractID[ab(g.OwnerB)], g.contractID[ab(g.NoCodeC)] = 7, 9, 8
+	for i := 0; i < 5 && !(g.codeAt(g.OwnerA) && g.codeAt(g.OwnerB)); i++ {
+		g.mineWith(g.Head, plain, mininet.Zone)
+	}
+	if !(g.codeAt(g.OwnerA) && g.codeAt(g.OwnerB)) {
+		fatalf("lockup-owner contracts were not deployed")
+	}
+	g.hasCode[7], g.hasCode[9] = true, true
+
+	if shape == nil {
+		var tips []int // tips of abandoned branches
+		for i := 0; i < steps; i++ {
+			parent := g.Head
+			switch x := g.R.Intn(20); {
+			case x < 2 && g.Blocks[g.Head].H > 8: // fork one to three blocks below the head
+				back := 1 + g.R.Intn(3)
+				tips = append(tips, g.Head)
+				for j := 0; j < back && g.Blocks[parent].Parent > 0; j++ {
+					parent = g.Blocks[parent].Parent
+				}
+				g.Stats["forks"]++
+			case x == 2 && len(tips) > 0: // back to an abandoned branch
+				t := tips[len(tips)-1]
+				tips = append(tips[:len(tips)-1], g.Head)
+				g.setHead(t)
+				parent = t
+			}
+			if parent == g.Head {
+				g.maybeShares()
+				g.submitClaims(false)
+			}
+			g.mineWith(parent, g.randomProfile(), orders[i%len(orders)])
+		}
+	} else {
+		base := g.Head
+		local := []int{base}
+		for i, st := range shape {
+			switch st.Op {
+			case "mine":
+				if st.P >= len(local) {
+					fatalf("bad shape")
+				}
+				p := Profile{Miner: st.Miner, Byte: uint8(st.Byte), Layout: st.Layout}
+				switch st.Contract {
+				case 7:
+					p.Contract = "A"
+				case 8:
+					p.Contract = "nocode"
+				case 9:
+					p.Contract = "B"
+				}
+				parent := local[st.P]
+				if parent == g.Head {
+					if len(st.Uncles) > 0 {
+						w := g.injectShare(g.wsMiners[g.R.Intn(2)], []byte{0})
+						if w != nil {
+							g.Events = append(g.Events, map[string]interface{}{"op": "share", "id": w.ID, "miner": w.Miner, "number": int(w.Number), "byte": 0})
+						}
+					}
+					if len(st.Claims) > 2 {
+						g.submitClaims(true)
+					}
+				}
+				local = append(local, g.mineWith(parent, p, orders[i%len(orders)]))
+			case "sethead":
+				if st.B < len(local) {
+					g.setHead(local[st.B])
+				}
+			}
+		}
+	}
+	// let the lockups run out and be claimed
+	for i := 0; i < 14; i++ {
+		g.submitClaims(i%3 == 0)
+		g.mineWith(g.Head, Profile{Layout: "plain", Byte: uint8(i % 2)}, orders[i%len(orders)])
+	}
+	return g, ""
+}
+
+// setHead switches to an existing block and compares the node's state with the state recorded when that
+// block was the head (a reorg across unlock heights must reproduce it exactly).
+func (g *Engine) setHead(b int) {
+	if err := g.S.SetHead(b); err != nil {
+		g.problem("head-switch-failed", "to", b, "err", err)
+		fatalf("sethead: %v", err)
+	}
+	g.Head = b
+	g.Stats["head_switches"]++
+	now := g.snapshot()
+	was := g.Blocks[b].Snap
+	ok := true
+	for a, v := range was.Bal {
+		if now.Bal[a] == nil || now.Bal[a].Cmp(v) != 0 {
+			ok = false
+			g.problem("balance-after-reorg-differs", "block", b, "account", g.trackedQ[a], "have", now.Bal[a], "want", v)
+		}
+	}
+	if len(now.Locks) != len(was.Locks) {
+		ok = false
+	}
+	for k, l := range was.Locks {
+		n := now.Locks[k]
+		if n == nil || n.Balance.Cmp(l.Balance) != 0 || n.Unlock != l.Unlock || n.Elements != l.Elements || n.Delegate != l.Delegate {
+			ok = false
+			have := "absent"
+			if n != nil {
+				have = fmt.Sprintf("bal=%s unlock=%d n=%d delegate=%x", n.Balance, n.Unlock, n.Elements, n.Delegate.Bytes()[:4])
+			}
+			class := "other"
+			if n != nil && n.Balance.Cmp(l.Balance) == 0 && n.Unlock == l.Unlock && n.Elements == l.Elements {
+				class = "delegate-only"
+			}
+			g.problem("lockup-record-after-reorg-differs", "block", b, "key", k[len(k)-8:], "class", class, "have", have,
+				"want", fmt.Sprintf("bal=%s unlock=%d n=%d delegate=%x", l.Balance, l.Unlock, l.Elements, l.Delegate.Bytes()[:4]))
+		}
+	}
+	if len(now.Utxo) != len(was.Utxo) {
+		ok = false
+		g.problem("qi-outputs-after-reorg-differ", "block", b, "have", len(now.Utxo), "want", len(was.Utxo))
+	}
+	g.Events = append(g.Events, map[string]interface{}{"op": "sethead", "b": b, "state_ok": ok})
+}
+
+func cmdRandom(args []string) {
+	fs := flag.NewFlagSet("random", flag.ExitOnError)
+	seed := fs.Int64("seed", 1, "")
+	steps := fs.Int("steps", 40, "")
+	nscen := fs.Int("n", 1, "number of scenarios")
+	out := fs.String("out", "", "trace ndjson")
+	bonus := fs.Bool("bonus", false, "compressed months/years so that the lockup bonus applies")
+	shapes := fs.String("shapes", "", "ndjson: TLC-generated histories of spec/Lockup.tla")
+	verbose := fs.Bool("v", false, "")
+	fs.Parse(args)
+	var shp [][]ShapeStep
+	if *shapes != "" {
+		f, err := os.Open(*shapes)
+		if err != nil {
+			fmt.Fprintln(os.Stderr, err)
+			os.Exit(3)
+		}
+		sc := bufio.NewScanner(f)
+		sc.Buffer(make([]byte, 1<<20), 1<<24)
+		for sc.Scan() {
+			var one []ShapeStep
+			if err := json.Unmarshal(sc.Bytes(), &one); err != nil {
+				fmt.Fprintln(os.Stderr, "bad shape:", err)
+				os.Exit(3)
+			}
+			shp = append(shp, one)
+		}
+		f.Close()
+		*nscen = len(shp)
+	}
+	var all []map[string]interface{}
+	var problems []Problem
+	stats := map[string]int{}
+	var samples []map[string]interface{}
+	blocks := 0
+	for si := 0; si < *nscen; si++ {
+		var shape []ShapeStep
+		if shp != nil {
+			shape = shp[si]
+		}
+		g, derr := runScenario(*seed*1000+int64(si), si+1, *bonus && si%2 == 0 || (*bonus && shp != nil), *steps, shape, *verbose)
+		if derr != "" {
+			fmt.Fprintln(os.Stderr, "driver error:", derr)
+			if g != nil {
+				b, _ := json.Marshal(map[string]interface{}{"problems": g.Problems})
+				fmt.Fprintln(os.Stderr, string(b))
+			}
+			os.Exit(3)
+		}
+		all = append(all, g.Events...)
+		for _, p := range g.Problems {
+			p.Info["scenario"] = fmt.Sprint(si)
+			problems = append(problems, p)
+		}
+		for k, v := range g.Stats {
+			stats[k] += v
+		}
+		blocks += len(g.S.Blocks) - 1
+		if len(samples) < 5 {
+			samples = append(samples, g.Samples...)
+		}
+	}
+	if *out != "" {
+		w, err := os.Create(*out)
+		if err != nil {
+			fmt.Fprintln(os.Stderr, err)
+			os.Exit(3)
+		}
+		bw := bufio.NewWriter(w)
+		enc := json.NewEncoder(bw)
+		for _, ev := range all {
+			enc.Encode(ev)
+		}
+		bw.Flush()
+		w.Close()
+	}
+	b, _ := json.Marshal(map[string]interface{}{"scenarios": *nscen, "events": len(all), "blocks": blocks, "problems": problems, "stats": stats, "samples": samples, "bonus": *bonus})
+	fmt.Println(string(b))
+}
 
 func main() {
 	if len(os.Args) < 2 {
@@ -13,6 +390,8 @@ func main() {
 	switch os.Args[1] {
 	case "probe":
 		cmdProbe(os.Args[2:])
+	case "random":
+		cmdRandom(os.Args[2:])
 	default:
 		fmt.Fprintln(os.Stderr, "unknown subcommand")
 		os.Exit(2)
